@@ -285,4 +285,28 @@ theorem axis_enclose (v : Rat) (vs : List Rat) :
       have := hmin y hy; have := hmax y hy
       linarith
 
+/-- converse of `isAlmostInt_near`: what the code computes is the distance to the *nearest* integer -/
+theorem isAlmostInt_of_near (x tol : Rat) (k : Int) (h : |x - k| < tol) : isAlmostInt x tol = true := by
+  unfold isAlmostInt
+  obtain ⟨k0, hk, hcase⟩ := fmod1_spec x
+  simp only [decide_eq_true_eq, qabs_eq_abs]
+  rw [hk] at hcase ⊢
+  rcases hcase with ⟨_, h0, h1⟩ | ⟨_, h0, h1⟩
+  · rw [abs_of_nonneg h0]
+    rcases le_or_gt k k0 with hk' | hk'
+    · have c : (k : Rat) ≤ k0 := by exact_mod_cast hk'
+      rw [abs_of_nonneg (by linarith)] at h
+      split <;> linarith
+    · have c : (k0 : Rat) + 1 ≤ k := by exact_mod_cast hk'
+      rw [abs_of_nonpos (by linarith)] at h
+      split <;> linarith
+  · rw [abs_of_nonpos h1]
+    rcases le_or_gt k0 k with hk' | hk'
+    · have c : (k0 : Rat) ≤ k := by exact_mod_cast hk'
+      rw [abs_of_nonpos (by linarith)] at h
+      split <;> linarith
+    · have c : (k : Rat) + 1 ≤ k0 := by exact_mod_cast hk'
+      rw [abs_of_nonneg (by linarith)] at h
+      split <;> linarith
+
 end OdcGeo.C16
